@@ -4,30 +4,36 @@ import re
 import vlib
 
 PID = "C16"
-MODS = ["AsmjitVerif.Props.C16", "AsmjitVerif.Props.C16Fields"]
+MODS = ["AsmjitVerif.Props.C16", "AsmjitVerif.Props.C16Fields", "AsmjitVerif.Props.C16RA"]
 MANIFEST = {
     "technique": "Lean 4: non-interference (unwinding) theorems by induction over all operation histories on a hand model of CodeHolder "
-                 "init/reset/reinit/attach/detach + the x86 Assembler/Builder/Compiler event handlers; field-coverage theorems by kernel "
-                 "evaluation over the clang AST of the current sources; C++/Lean correspondence and fresh-vs-recycled differential runs "
-                 "judged by a Lean monitor",
+                 "init/reset/reinit/attach/detach + the x86 and AArch64 Assembler/Builder/Compiler event handlers and code generation; "
+                 "field-coverage theorems by kernel evaluation over the clang AST of the current sources; lifetime theorems for the register "
+                 "allocator's per-function data; C++/Lean correspondence and fresh-vs-recycled differential runs judged by a Lean monitor",
     "text": "(a) From clang's JSON AST of the current sources a translator regenerates, for CodeHolder, Section, the emitter classes, BaseRAPass "
             "and Arena, every data member and every member written on each recycle path (reset+init, reinit, detach+attach, on_reinit, the "
             "allocator's per-function epilogue, Arena::reset); Lean proves by kernel evaluation that each member is re-initialised or is on a "
-            "reviewed keep-list, and that the keep-lists are tight. (b) On a hand-written executable model of the holder and of the four x86 "
-            "emitters (all members, including the ones that are deliberately retained) Lean proves for ALL histories: reset makes the world "
-            "observationally equal to fresh objects, reinit equal to a fresh holder with the same emitters attached in the same order, every "
-            "operation preserves observational equality, hence any program generates the same sections, labels, fixups and relocations after "
-            "any history as on fresh objects, and loggers/validation/retained capacity never reach the output. (c) The model is tied to /repo "
-            "by running harness and compiled model on the same operation lines; the property's monitor compares the implementation's own "
-            "dumps of recycled vs. fresh runs, including real instruction streams and multi-function Compiler programs through the register "
-            "allocator, static vs. dynamic arena memory, logger/validation on vs. off and perturbed heaps, under ASan/UBSan.",
+            "reviewed keep-list, and that the keep-lists are tight. (b) On a hand-written executable model of the holder and of the x86 and "
+            "AArch64 emitters (all members, including the ones that are deliberately retained; labels, fixups, relocations, sections, Builder "
+            "nodes and their serialisation) Lean proves for ALL states and histories: reset makes the world observationally equal to fresh "
+            "objects, reinit forgets everything but environment and attachment, EVERY operation (lifecycle, configuration, code generation) "
+            "preserves observational equality and gives the same answer, hence any program generates the same sections, labels, fixups and "
+            "relocations after a reset/reinit as on fresh objects, and loggers/validation/retained capacity never reach the output. "
+            "(c) For the register allocator's per-function data a lifetime model proves that after run_on_function nothing the Compiler keeps "
+            "points into the pass arena, for any number of functions. (d) The models are tied to /repo by running harness and compiled model on "
+            "the same operation lines; the property's monitor compares the implementation's own dumps of recycled vs. fresh runs and demands "
+            "that no node or virtual register references the pass arena between API calls, including real x86-64 and AArch64 instruction "
+            "streams and multi-function Compiler programs through both register allocators, static vs. dynamic arena memory, logger/validation "
+            "on vs. off and perturbed heaps, under ASan/UBSan.",
     "note": "Proved on the model: holder containers, attachment list, one-shot emitter state, Builder node list and serialisation, labels, "
-            "same-section fixups, embed_label relocations. Only tested (differential, not proved): instruction encoding beyond jmp, the register "
-            "allocator's per-function data, constant pools, AArch64 emitters (structural theorem only), arena block reuse. Trusted: "
-            "tools/ast_fields.py, the harness/driver diff, Spec/Reuse.lean (what counts as output), the reviewed keep-lists in Props/C16Fields.lean.",
+            "same-section fixups (x86 rel8/rel32, AArch64 imm26), embed_label relocations, both emitter families. Hypothesis of reset_sim_fresh "
+            "(emitters not attached at reset time are clean) is not proved as an invariant of histories. Only tested (differential, not proved): "
+            "instruction encoding beyond jmp/b, what the register allocator decides, constant pools, arena block reuse. Trusted: tools/ast_fields.py, "
+            "the harness/driver diff, Spec/Reuse.lean (what counts as output), the reviewed keep-lists in Props/C16Fields.lean.",
 }
 
 EM_KIND = {0: "asm", 1: "asm", 2: "bld", 3: "cmp"}
+AVOID = {"refinalize": False}      # set when the witness below already showed the dead-pass-data defect on this tree
 
 # Finding C16-K1 / fixes/C16-2.patch: label nodes keep their RABlock* pass data after the allocator's pass arena is reset, so a
 # second run_passes()/finalize() on the same Compiler follows dead pointers (SEGV, wild RAWorkReg*). With C16-2 the second
@@ -182,7 +188,7 @@ def gen_code_ops(rng, tr, n, modelled=True, allow_err=False):
             emit("cmt %d" % i)
         elif r < 0.91 and kind == "cmp":
             emit(rng.choice(("vreg %d", "jann %d")) % i)
-        elif r < 0.94 and kind != "asm":
+        elif r < 0.94 and kind != "asm" and not (AVOID["refinalize"] and kind == "cmp" and tr.cc_done):
             emit("finalize %d" % i)
         elif allow_err and r < 0.97:
             emit("err %d %d" % (i, rng.choice((0, 2)) if modelled else rng.randrange(3)))
@@ -229,6 +235,8 @@ def gen_history(rng, tr, n, modelled=True):
             emit("heap %d" % rng.randrange(1 << 20))
         elif not modelled and r < 0.72 and tr.attached:
             i = rng.choice(tr.attached)
+            if AVOID["refinalize"] and EM_KIND[i] == "cmp" and tr.cc_done:
+                continue
             if EM_KIND[i] == "cmp" and rng.random() < 0.7:
                 emit("prog %d func %d %d" % (i, rng.randrange(1 << 30), rng.randrange(4, 40)))
                 if rng.random() < 0.6:
@@ -385,9 +393,9 @@ def run(res):
     quick = res.tier == "quick"
     broken = []
     res.assumptions += [
-        "one CodeHolder and four x86 emitters per world; AArch64 emitters are covered by the structural theorem only",
+        "one CodeHolder and four emitters (x86 family or AArch64 family) per world",
         "cross-section label references (defect #18, property C03) are kept out of generated programs",
-        "instruction encoding beyond jmp, register allocation and constant pools are outside the Lean model: covered by fresh-vs-recycled "
+        "instruction encoding beyond jmp/b, the register allocator's decisions and constant pools are outside the Lean models: covered by fresh-vs-recycled "
         "differential runs judged by the Lean monitor, not by a theorem",
         "Arena block reuse is abstract in the model (counters only); static vs dynamic arena memory and heap perturbation are differential",
         "ASan cannot see a stale pointer into arena memory that was soft-reset (the blocks stay allocated): such references are covered by the "
@@ -438,16 +446,19 @@ def run(res):
     # -- dead references after run_passes (C16-K1 / C16-2): replay the witness ----------------------------
     o, krc, kerr = run_stream([str(h)], REFINALIZE)
     res.coverage["refinalize_witness"] = "aborts rc=%d" % krc if krc != 0 else "answers %s" % (o[-2:-1] or ["?"])[0]
+    deadref_known = False
     if krc != 0:
         first = [l.strip() for l in kerr.splitlines() if "runtime error" in l or "ERROR: AddressSanitizer" in l or l.startswith("SUMMARY")][:2]
         res.violation("second finalize() on a Compiler that already ran its passes follows dead pass data instead of failing: %s" % " | ".join(first)[:500],
                       {"ops": REFINALIZE, "stderr": kerr[-2000:]}, True, key="abort:refinalize")
-        return
-    v = monitor([(o[-1], o[-1])])[0]
-    if not v.startswith("good"):
-        res.violation("after finalize() the Compiler's nodes still reference the reset pass arena: %s" % v,
-                      {"ops": REFINALIZE, "monitor": v}, True, key="deadref")
-        return
+        deadref_known = True
+    else:
+        v = monitor([(o[-1], o[-1])])[0]
+        if not v.startswith("good"):
+            res.violation("after finalize() the Compiler's nodes still reference the reset pass arena: %s" % v,
+                          {"ops": REFINALIZE, "monitor": v}, True, key="deadref")
+            deadref_known = True
+    AVOID["refinalize"] = deadref_known     # keep the rest of the run alive on such a tree: do not re-finalize, count the verdicts
     n_mod = 500 if quick else 6000
     n_diff = 260 if quick else 3500
     if broken:
@@ -506,6 +517,10 @@ def run(res):
         pairs.append((impl[ra[3] - 1], impl[fa[3] - 1]))
     verdicts = monitor(pairs)
     bad = [ci for ci, v in enumerate(verdicts) if not v.startswith("good")]
+    if deadref_known:
+        dr = [ci for ci in bad if verdicts[ci].startswith("BAD dead reference")]
+        res.coverage["dead_reference_pairs"] = len(dr)
+        bad = [ci for ci in bad if ci not in set(dr)]
 
     # heap-content independence: the same fresh runs in an uninstrumented build under different malloc perturbation bytes
     perturb_bad = []
@@ -526,6 +541,8 @@ def run(res):
             dumps = list(zip(*outs))
             vs = monitor([(d[1], d[0]) for d in dumps] + [(d[2], d[0]) for d in dumps])
             for k, v in enumerate(vs):
+                if v.startswith("BAD dead reference") and deadref_known:
+                    continue
                 if not v.startswith("good"):
                     perturb_bad.append((v, "output differs under MALLOC_PERTURB_ (heap content reaches the output)", sub[k % len(dumps)]))
         res.coverage["heap_perturbation_runs"] = 3 * len(sub)
